@@ -359,25 +359,35 @@ func processDiscardSetting(res *vkit.Result, bin string) {
 		Name, Line string
 		Env        []string
 		On         bool
+		// Lead: the judged pool is the second of two; the pool in front of it carries this line
+		// ("-" = a pool in front that leaves the key out)
+		Lead string
 	}
 	variants := []variant{
-		{"literal-true", "discard_overflow: true", nil, true},
-		{"literal-false", "discard_overflow: false", nil, false},
-		{"absent", "", nil, true},
-		{"env-true", "discard_overflow: ${ENV:VERIF_C04_DISCARD}", []string{"VERIF_C04_DISCARD=true"}, true},
-		{"env-false", "discard_overflow: ${ENV:VERIF_C04_DISCARD}", []string{"VERIF_C04_DISCARD=false"}, false},
-		{"short-env-false", "discard_overflow: ${VERIF_C04_DISCARD}", []string{"VERIF_C04_DISCARD=false"}, false},
+		{"literal-true", "discard_overflow: true", nil, true, ""},
+		{"literal-false", "discard_overflow: false", nil, false, ""},
+		{"absent", "", nil, true, ""},
+		{"env-true", "discard_overflow: ${ENV:VERIF_C04_DISCARD}", []string{"VERIF_C04_DISCARD=true"}, true, ""},
+		{"env-false", "discard_overflow: ${ENV:VERIF_C04_DISCARD}", []string{"VERIF_C04_DISCARD=false"}, false, ""},
+		{"short-env-false", "discard_overflow: ${VERIF_C04_DISCARD}", []string{"VERIF_C04_DISCARD=false"}, false, ""},
+		// the setting is per pool: what another pool of the same file says must not matter
+		{"absent-after-false-pool", "", nil, true, "discard_overflow: false"},
+		{"absent-after-true-pool", "", nil, true, "discard_overflow: true"},
+		{"false-after-absent-pool", "discard_overflow: false", nil, false, "-"},
+		{"true-after-false-pool", "discard_overflow: true", nil, true, "discard_overflow: false"},
 	}
 	var wg sync.WaitGroup
 	for _, v := range variants {
 		wg.Add(1)
 		go func(v variant) {
 			defer wg.Done()
-			c := map[string]any{"layer": "process", "discard_overflow_written_as": v.Line, "env": v.Env}
+			c := map[string]any{"layer": "process", "discard_overflow_written_as": v.Line, "env": v.Env, "pool_in_front": v.Lead}
 			key := "C04/process/" + v.Name
 			var first sync.Once
 			srv := &http.Server{Handler: http.HandlerFunc(func(w http.ResponseWriter, r *http.Request) {
-				first.Do(func() { time.Sleep(2600 * time.Millisecond) })
+				if r.URL.Path == "/a" { // the pool in front (if any) asks for /lead
+					first.Do(func() { time.Sleep(2600 * time.Millisecond) })
+				}
 				_, _ = w.Write([]byte("ok"))
 			})}
 			ln, err := net.Listen("tcp", "127.0.0.1:0")
@@ -395,8 +405,24 @@ func processDiscardSetting(res *vkit.Result, bin string) {
 			defer os.RemoveAll(dir)
 			out, ammo, cf := filepath.Join(dir, "phout.log"), filepath.Join(dir, "ammo.uri"), filepath.Join(dir, "load.yaml")
 			_ = os.WriteFile(ammo, []byte("/a taga\n"), 0o644)
+			lead := ""
+			if v.Lead != "" {
+				l := v.Lead
+				if l == "-" {
+					l = ""
+				}
+				lead = fmt.Sprintf(`  - id: "lead"
+    gun: {type: "http", target: "%s"}
+    ammo: {type: "uri", file: "%s"}
+    result: {type: "phout", destination: "%s"}
+    rps: {type: "once", times: 1}
+    startup: {type: "once", times: 1}
+    %s
+`, ln.Addr().String(), ammo+".lead", filepath.Join(dir, "lead.log"), l)
+				_ = os.WriteFile(ammo+".lead", []byte("/lead tagl\n"), 0o644)
+			}
 			conf := fmt.Sprintf(`pools:
-  - id: "p"
+%s  - id: "p"
     gun: {type: "http", target: "%s"}
     ammo: {type: "uri", file: "%s"}
     result: {type: "phout", destination: "%s"}
@@ -404,7 +430,7 @@ func processDiscardSetting(res *vkit.Result, bin string) {
     startup: {type: "once", times: 1}
     %s
 log: {level: "error"}
-`, ln.Addr().String(), ammo, out, v.Line)
+`, lead, ln.Addr().String(), ammo, out, v.Line)
 			_ = os.WriteFile(cf, []byte(conf), 0o644)
 			cmd := exec.Command(bin, cf)
 			cmd.Dir = dir
